@@ -389,9 +389,6 @@ Proof.
   - exact Hl.
 Qed.
 
-Lemma on_no_frame_id : forall st, on_no_frame st = st.
-Proof. reflexivity. Qed.
-
 Lemma fill_refines : forall f st s, wf f -> Inv f st s ->
   snd (fill_buf st) = snd (f_fill (chunks f) s) /\
   Inv f (fst (fill_buf st)) (fst (f_fill (chunks f) s)).
@@ -413,21 +410,21 @@ Proof.
         - cbn [off]. lia.
         - cbn [win]. lia. }
       split; [apply (as_ref_spec _ _ _ HI') | exact HI'].
-    + rewrite on_no_frame_id. destruct (load_none _ _ _ HI Hex E) as (Hr & Hwa).
+    + destruct (load_none _ _ _ HI Hex E) as (Hr & Hwa).
       assert (HI' : Inv f st (mkF (off s) (win_at (chunks f) (off s)))).
       { eapply Inv_ext; [exact HI | reflexivity | cbn [win]; lia]. }
       split; [apply (as_ref_spec _ _ _ HI') | exact HI'].
 Qed.
 
 (* the known class direct-read-at-eof-stale-len *)
-Definition stale_direct (st : state) (n : N) : Prop :=
-  65536 <= n /\ cur st = blen st /\ rest st = [] /\ blen st <> 0.
+Definition stale_direct (fx : bool) (st : state) (n : N) : Prop :=
+  fx = false /\ 65536 <= n /\ cur st = blen st /\ rest st = [] /\ blen st <> 0.
 
-Lemma read_refines : forall f st s n, wf f -> Inv f st s -> ~ stale_direct st n ->
-  snd (read st n) = snd (f_read (chunks f) s n) /\
-  Inv f (fst (read st n)) (fst (f_read (chunks f) s n)).
+Lemma read_refines : forall fx f st s n, wf f -> Inv f st s -> ~ stale_direct fx st n ->
+  snd (read fx st n) = snd (f_read (chunks f) s n) /\
+  Inv f (fst (read fx st n)) (fst (f_read (chunks f) s n)).
 Proof.
-  intros f st s n Hwf HI Hns. destruct (Inv_cur _ _ _ HI) as (Hc & Hw & Hb).
+  intros fx f st s n Hwf HI Hns. destruct (Inv_cur _ _ _ HI) as (Hc & Hw & Hb).
   unfold read.
   destruct (negb (has_remaining st) && (65536 <=? n)) eqn:Ed.
   - (* direct path *)
@@ -448,9 +445,10 @@ Proof.
         -- apply (inv_loaded f pre1 b r (flen b) (buf st)); fin; try lia.
         -- unfold f_advance. cbn [off]. lia.
         -- unfold f_advance. cbn [win]. lia.
-    + rewrite on_no_frame_id. destruct (load_none _ _ _ HI Hex E) as (Hr & Hwa).
-      assert (Hz : blen st = 0).
-      { destruct (N.eq_dec (blen st) 0) as [Z|NZ]; [exact Z|]. exfalso. apply Hns.
+    + destruct (load_none _ _ _ HI Hex E) as (Hr & Hwa).
+      assert (Hz : (if fx then 0 else blen st) = 0).
+      { destruct fx; [reflexivity|].
+        destruct (N.eq_dec (blen st) 0) as [Z|NZ]; [exact Z|]. exfalso. apply Hns.
         unfold stale_direct. auto. }
       rewrite Hwa, Hz. replace (N.min n 0) with 0 by lia. rewrite slice_zero.
       split; [reflexivity|].
@@ -471,43 +469,46 @@ Qed.
 Lemma Inv_trailing : forall f st s, Inv f st s -> trailing_empty f -> rest st = [] -> blen st = 0.
 Proof. intros f st s (pre & H). intros Ht Hr. apply H; assumption. Qed.
 
-Lemma not_stale : forall f st s n, Inv f st s -> n < 65536 \/ trailing_empty f -> ~ stale_direct st n.
+Definition exact_ok (fx : bool) (f : file) (n : N) : Prop :=
+  fx = true \/ n < 65536 \/ trailing_empty f.
+
+Lemma not_stale : forall fx f st s n, Inv f st s -> exact_ok fx f n -> ~ stale_direct fx st n.
 Proof.
-  intros f st s n HI [Hn|Ht] (H1 & H2 & H3 & H4); [lia|].
+  intros fx f st s n HI [Hfx|[Hn|Ht]] (H0 & H1 & H2 & H3 & H4); [congruence|lia|].
   apply H4. eapply Inv_trailing; eassumption.
 Qed.
 
 (* ---- read_exact ----------------------------------------------------------------------- *)
 
-Lemma loop_refines : forall f, wf f -> forall fuel st s rem acc,
-  Inv f st s -> rem < 65536 \/ trailing_empty f ->
-  snd (default_read_exact fuel st rem acc) = snd (f_read_loop (chunks f) fuel s rem acc) /\
-  Inv f (fst (default_read_exact fuel st rem acc)) (fst (f_read_loop (chunks f) fuel s rem acc)).
+Lemma loop_refines : forall fx f, wf f -> forall fuel st s rem acc,
+  Inv f st s -> exact_ok fx f rem ->
+  snd (default_read_exact fx fuel st rem acc) = snd (f_read_loop (chunks f) fuel s rem acc) /\
+  Inv f (fst (default_read_exact fx fuel st rem acc)) (fst (f_read_loop (chunks f) fuel s rem acc)).
 Proof.
-  intros f Hwf. induction fuel as [|k IH]; intros st s rem acc HI Hok.
+  intros fx f Hwf. induction fuel as [|k IH]; intros st s rem acc HI Hok.
   - cbn [default_read_exact f_read_loop fst snd]. split; [reflexivity | exact HI].
   - cbn [default_read_exact f_read_loop].
     destruct (rem =? 0); [cbn [fst snd]; split; [reflexivity | exact HI]|].
-    destruct (read_refines f st s rem Hwf HI (not_stale _ _ _ _ HI Hok)) as [Hr HI1].
-    destruct (read st rem) as [st1 r1]. cbn [fst snd] in Hr, HI1.
+    destruct (read_refines fx f st s rem Hwf HI (not_stale _ _ _ _ _ HI Hok)) as [Hr HI1].
+    destruct (read fx st rem) as [st1 r1]. cbn [fst snd] in Hr, HI1.
     unfold f_read in *. cbn [fst snd] in *. subst r1.
     set (bs := slice (concat (chunks f)) (off (refill (chunks f) s)) (N.min rem (win (refill (chunks f) s)))) in *.
     destruct (len bs =? 0); [cbn [fst snd]; split; [reflexivity | exact HI1]|].
-    apply IH; [exact HI1|]. destruct Hok as [Hn|Ht]; [left; lia | right; exact Ht].
+    apply IH; [exact HI1|]. destruct Hok as [Hfx|[Hn|Ht]]; [left; exact Hfx | right; left; lia | right; right; exact Ht].
 Qed.
 
-Lemma read_exact_std_refines : forall f st s n, wf f -> Inv f st s ->
-  n < 65536 \/ trailing_empty f ->
-  snd (read_exact_std st n) = snd (f_read_exact_std (chunks f) s n) /\
-  Inv f (fst (read_exact_std st n)) (fst (f_read_exact_std (chunks f) s n)).
+Lemma read_exact_std_refines : forall fx f st s n, wf f -> Inv f st s ->
+  exact_ok fx f n ->
+  snd (read_exact_std fx st n) = snd (f_read_exact_std (chunks f) s n) /\
+  Inv f (fst (read_exact_std fx st n)) (fst (f_read_exact_std (chunks f) s n)).
 Proof. intros. unfold read_exact_std, f_read_exact_std. apply loop_refines; assumption. Qed.
 
-Lemma read_exact_refines : forall f st s n, wf f -> Inv f st s ->
-  n < 65536 \/ trailing_empty f ->
-  snd (read_exact st n) = snd (f_read_exact (chunks f) s n) /\
-  Inv f (fst (read_exact st n)) (fst (f_read_exact (chunks f) s n)).
+Lemma read_exact_refines : forall fx f st s n, wf f -> Inv f st s ->
+  exact_ok fx f n ->
+  snd (read_exact fx st n) = snd (f_read_exact (chunks f) s n) /\
+  Inv f (fst (read_exact fx st n)) (fst (f_read_exact (chunks f) s n)).
 Proof.
-  intros f st s n Hwf HI Hok. unfold read_exact, f_read_exact.
+  intros fx f st s n Hwf HI Hok. unfold read_exact, f_read_exact.
   rewrite (as_ref_spec _ _ _ HI).
   pose proof (Inv_bound _ _ _ HI) as Hbd.
   rewrite len_slice by (rewrite len_concat_chunks; lia).
@@ -521,10 +522,11 @@ Qed.
 
 (* ---- seek ------------------------------------------------------------------------------ *)
 
-(* outside the known class seek-eof-stale-block: a seek to the end-of-file position is only
-   covered when the buffered block is an empty block whose end names the end of the data *)
-Definition seek_ok (f : file) (st : state) (v : N) : Prop :=
-  vcomp v = total_csize f ->
+(* fx = false only (the pinned reader's class seek-eof-stale-block): a seek to the end-of-file
+   position is covered only when the buffered block is an empty block whose end names the end
+   of the data.  For the repaired reader (fx = true) there is no condition. *)
+Definition seek_ok (fx : bool) (f : file) (st : state) (v : N) : Prop :=
+  fx = false -> vcomp v = total_csize f ->
   blen st = 0 /\ denote f (pack (bpos st + bsize st) 0) = Some (total_dlen f).
 
 Lemma all_empty_hdlen : forall es b r, all_empty es -> hdlen (es ++ b :: r) <= flen b.
@@ -532,39 +534,71 @@ Proof.
   intros [|e es] b r H; cbn [app hdlen]; [lia|]. inversion H; subst. lia.
 Qed.
 
-Lemma seek_refines : forall f st s v s0 l, wf f -> Inv f st s ->
-  frame_start f 0 0 (vcomp v) = Some (s0, l) -> vuncomp v <= l -> seek_ok f st v ->
-  snd (seek f st v) = Ok v /\ Inv f (fst (seek f st v)) (f_seek (chunks f) s0 (vuncomp v)).
+(* the state the repaired seek leaves when there is no data at or after the target *)
+Lemma inv_at_eof : forall f bf, wf f ->
+  Inv f (mkState [] (total_csize f) (total_csize f) 0 0 0 bf) (mkF (total_dlen f) 0).
 Proof.
-  intros f st s v s0 l Hwf HI Hfs Hu Hok.
+  intros f bf Hwf. exists f. cbn [rest position cur blen bpos bsize buf off win].
+  splits; fin; try lia.
+  - rewrite app_nil_r. reflexivity.
+  - intros _. rewrite N.add_0_r.
+    pose proof (denote_boundary f [] 0 Hwf) as H. rewrite app_nil_r, N.add_0_r in H.
+    apply H; cbn [hdlen]; lia.
+Qed.
+
+Lemma win_at_end : forall f, win_at (chunks f) (total_dlen f) = 0.
+Proof. intros f. pose proof (win_at_prefix f [] 0) as H. rewrite app_nil_r, N.add_0_r in H. exact H. Qed.
+
+Lemma seek_refines : forall fx f st s v s0 l, wf f -> Inv f st s ->
+  frame_start f 0 0 (vcomp v) = Some (s0, l) -> vuncomp v <= l -> seek_ok fx f st v ->
+  snd (seek fx f st v) = Ok v /\
+  Inv f (fst (seek fx f st v)) (f_seek (chunks f) s0 (vuncomp v)).
+Proof.
+  intros fx f st s v s0 l Hwf HI Hfs Hu Hok.
   destruct (frame_start_split _ _ _ _ _ _ Hfs) as (p & q & Hf & Hc & Hs0 & Hl & Hd).
   rewrite N.add_0_l in Hc, Hs0.
   unfold seek. rewrite Hd. unfold read_nonempty_block. cbn [rest position].
-  destruct (next_nonempty q (vcomp v)) as [[[[b p1] r] np]|] eqn:E; cbn [fst snd rest position bpos bsize blen buf].
-  - split; [reflexivity|].
+  destruct (next_nonempty q (vcomp v)) as [[[[b p1] r] np]|] eqn:E.
+  - split; [reflexivity|]. cbn [fst].
     destruct (next_nonempty_some _ _ _ _ _ _ E) as (es & Hes & Hq & Hp1 & Hnp & Hlast).
     assert (Hub : vuncomp v <= flen b).
     { subst l q. pose proof (all_empty_hdlen es b r Hes). lia. }
     assert (Hf' : f = (p ++ es) ++ b :: r) by (rewrite Hf, Hq, app_assoc; reflexivity).
-    replace p1 with (total_csize (p ++ es)) by (rewrite csum_app; lia).
-    replace np with (total_csize (p ++ es) + csize b) by (rewrite csum_app; lia).
-    eapply Inv_ext.
-    + apply (inv_loaded f (p ++ es) b r (vuncomp v)); fin.
-      intros _. apply buf_write_firstn.
-    + unfold f_seek. cbn [off]. rewrite dsum_app, (all_empty_dsum es Hes). lia.
-    + unfold f_seek. cbn [win]. subst s0. rewrite Hf, Hq.
-      rewrite win_at_loaded by assumption. reflexivity.
-  - split; [reflexivity|]. rewrite on_no_frame_id. cbn [rest position bpos bsize blen buf].
+    assert (Hp1' : p1 = total_csize (p ++ es)) by (rewrite csum_app; lia).
+    assert (Hnp' : np = total_csize (p ++ es) + csize b) by (rewrite csum_app; lia).
+    assert (Hwl : win_at (chunks f) s0 = flen b).
+    { subst s0. rewrite Hf, Hq. apply win_at_loaded; assumption. }
+    destruct (fx && (flen b =? 0)) eqn:Ereset; cbn [rest position bpos bsize blen buf cur].
+    + (* repaired reader, only empty frames up to the end: empty block at the new position *)
+      apply andb_prop in Ereset. destruct Ereset as [Efx Ez]. subst fx.
+      assert (Hz : flen b = 0) by lia. specialize (Hlast Hz). subst r.
+      assert (Hnpf : np = total_csize f).
+      { rewrite Hnp'. rewrite Hf'. rewrite !csum_app, csum_cons, csum_nil. lia. }
+      assert (Hdf : total_dlen f = s0).
+      { rewrite Hf', !dsum_app, dsum_cons, dsum_nil, (all_empty_dsum es Hes). lia. }
+      replace (N.min (vuncomp v) 0) with 0 by lia. rewrite Hnpf.
+      eapply Inv_ext; [apply (inv_at_eof f _ Hwf) | |]; unfold f_seek; cbn [off win]; lia.
+    + replace (if fx then N.min (vuncomp v) (flen b) else vuncomp v) with (vuncomp v)
+        by (destruct fx; lia).
+      rewrite Hp1', Hnp'.
+      eapply Inv_ext.
+      * apply (inv_loaded f (p ++ es) b r (vuncomp v)); fin.
+        intros _. apply buf_write_firstn.
+      * unfold f_seek. cbn [off]. rewrite dsum_app, (all_empty_dsum es Hes). lia.
+      * unfold f_seek. cbn [win]. lia.
+  - split; [reflexivity|]. cbn [fst].
     apply next_nonempty_none in E. subst q. rewrite app_nil_r in Hf. subst p.
-    cbn [hdlen] in Hl. destruct (Hok Hc) as [Hb0 Hden].
-    destruct HI as (pre & Hf0 & Hpos & Hcur & Hbl & Hwin & Hoff & Hb & Hload & Hex & Htr).
-    assert (Hwa : win_at (chunks f) (total_dlen f) = 0).
-    { pose proof (win_at_prefix f [] 0) as H. rewrite app_nil_r, N.add_0_r in H. exact H. }
-    exists f. unfold f_seek. cbn [rest position cur blen bpos bsize buf off win].
-    subst s0. rewrite Hwa.
-    splits; fin; try lia.
-    + rewrite app_nil_r. reflexivity.
-    + intros _. rewrite Hden. f_equal. lia.
+    cbn [hdlen] in Hl. pose proof (win_at_end f) as Hwa.
+    destruct fx; cbn [andb rest position bpos bsize blen buf cur].
+    + replace (N.min (vuncomp v) 0) with 0 by lia. rewrite Hc. subst s0.
+      eapply Inv_ext; [apply (inv_at_eof f _ Hwf) | |]; unfold f_seek; cbn [off win]; lia.
+    + destruct (Hok eq_refl Hc) as [Hb0 Hden].
+      destruct HI as (pre & Hf0 & Hpos & Hcur & Hbl & Hwin & Hoff & Hb & Hload & Hex & Htr).
+      exists f. unfold f_seek. cbn [rest position cur blen bpos bsize buf off win].
+      subst s0. rewrite Hwa.
+      splits; fin; try lia.
+      * rewrite app_nil_r. reflexivity.
+      * intros _. rewrite Hden. f_equal; lia.
 Qed.
 
 (* ---- gzi -------------------------------------------------------------------------------- *)
@@ -660,23 +694,23 @@ Definition seeku_ok (f : file) (p : N) : Prop :=
 Lemma trailing_empty_nil : trailing_empty [].
 Proof. intros p b H. destruct p; discriminate. Qed.
 
-Lemma seeku_refines : forall f st s p, wf f -> total_csize f <= MAX_COMPRESSED_POSITION ->
+Lemma seeku_refines : forall fx f st s p, wf f -> total_csize f <= MAX_COMPRESSED_POSITION ->
   Inv f st s -> seeku_ok f p ->
-  snd (seek_by_uncompressed_position f (gzi_of f) st p) = Ok p /\
-  Inv f (fst (seek_by_uncompressed_position f (gzi_of f) st p)) (f_seek_flat (chunks f) p).
+  snd (seek_by_uncompressed_position fx f (gzi_of f) st p) = Ok p /\
+  Inv f (fst (seek_by_uncompressed_position fx f (gzi_of f) st p)) (f_seek_flat (chunks f) p).
 Proof.
-  intros f st s p Hwf Hmax HI [Hp Hlast].
+  intros fx f st s p Hwf Hmax HI [Hp Hlast].
   destruct (gzi_query_spec f p Hwf Hmax Hp Hlast) as (v & s0 & l & Hq & Hfs & Hu & Hsum & Hwa & Heof).
   unfold seek_by_uncompressed_position. rewrite Hq.
-  assert (Hok : seek_ok f st v).
-  { intros Hc. specialize (Heof Hc). subst f.
+  assert (Hok : seek_ok fx f st v).
+  { intros _ Hc. specialize (Heof Hc). subst f.
     destruct HI as (pre & Hf0 & _ & _ & _ & _ & _ & Hb & _ & _ & Htr).
     symmetry in Hf0. apply app_eq_nil in Hf0. destruct Hf0 as [_ Hr].
     rewrite csum_nil in Hb. split; [apply Htr; [apply trailing_empty_nil | exact Hr]|].
     replace (bpos st + bsize st) with 0 by lia.
     unfold denote. rewrite vcomp_pack, vuncomp_pack by lia. reflexivity. }
-  destruct (seek_refines f st s v s0 l Hwf HI Hfs Hu Hok) as [Hr HI'].
-  destruct (seek f st v) as [st' r]. cbn [fst snd] in *. subst r. cbn [fst snd].
+  destruct (seek_refines fx f st s v s0 l Hwf HI Hfs Hu Hok) as [Hr HI'].
+  destruct (seek fx f st v) as [st' r]. cbn [fst snd] in *. subst r. cbn [fst snd].
   split; [reflexivity|].
   eapply Inv_ext; [exact HI' | |]; unfold f_seek, f_seek_flat; cbn [off win]; lia.
 Qed.
@@ -706,29 +740,29 @@ Qed.
 
 (* ---- one step, whole histories ------------------------------------------------------------ *)
 
-Definition op_ok (f : file) (st : state) (o : op) : Prop :=
+Definition op_ok (fx : bool) (f : file) (st : state) (o : op) : Prop :=
   match o with
-  | Read n => ~ stale_direct st n
-  | ReadExact n | ReadExactStd n => n < 65536 \/ trailing_empty f
+  | Read n => ~ stale_direct fx st n
+  | ReadExact n | ReadExactStd n => exact_ok fx f n
   | FillBuf | Consume _ => True
-  | Seek v => (exists j, denote f v = Some j) /\ seek_ok f st v
+  | Seek v => (exists j, denote f v = Some j) /\ seek_ok fx f st v
   | SeekU p => seeku_ok f p
   end.
 
-Lemma step_refines : forall f st s o, wf f -> total_csize f <= MAX_COMPRESSED_POSITION ->
-  Inv f st s -> op_ok f st o ->
+Lemma step_refines : forall fx f st s o, wf f -> total_csize f <= MAX_COMPRESSED_POSITION ->
+  Inv f st s -> op_ok fx f st o ->
   exists s' fo, fstep f s o = Some (s', fo) /\
-    out_eq (snd (step f (gzi_of f) st o)) fo /\ Inv f (fst (step f (gzi_of f) st o)) s'.
+    out_eq (snd (step fx f (gzi_of f) st o)) fo /\ Inv f (fst (step fx f (gzi_of f) st o)) s'.
 Proof.
-  intros f st s o Hwf Hmax HI Hok. destruct o as [n|n|n| |n|v|p]; cbn [op_ok] in Hok; cbn [step fstep].
-  - destruct (read_refines f st s n Hwf HI Hok) as [Hr HI'].
-    destruct (read st n) as [st' r]. destruct (f_read (chunks f) s n) as [s' fr]. cbn [fst snd] in *.
+  intros fx f st s o Hwf Hmax HI Hok. destruct o as [n|n|n| |n|v|p]; cbn [op_ok] in Hok; cbn [step fstep].
+  - destruct (read_refines fx f st s n Hwf HI Hok) as [Hr HI'].
+    destruct (read fx st n) as [st' r]. destruct (f_read (chunks f) s n) as [s' fr]. cbn [fst snd] in *.
     exists s', (FBytes fr). splits; fin.
-  - destruct (read_exact_refines f st s n Hwf HI Hok) as [Hr HI'].
-    destruct (read_exact st n) as [st' r]. destruct (f_read_exact (chunks f) s n) as [s' fr]. cbn [fst snd] in *.
+  - destruct (read_exact_refines fx f st s n Hwf HI Hok) as [Hr HI'].
+    destruct (read_exact fx st n) as [st' r]. destruct (f_read_exact (chunks f) s n) as [s' fr]. cbn [fst snd] in *.
     exists s', (FBytes fr). splits; fin.
-  - destruct (read_exact_std_refines f st s n Hwf HI Hok) as [Hr HI'].
-    destruct (read_exact_std st n) as [st' r]. destruct (f_read_exact_std (chunks f) s n) as [s' fr]. cbn [fst snd] in *.
+  - destruct (read_exact_std_refines fx f st s n Hwf HI Hok) as [Hr HI'].
+    destruct (read_exact_std fx st n) as [st' r]. destruct (f_read_exact_std (chunks f) s n) as [s' fr]. cbn [fst snd] in *.
     exists s', (FBytes fr). splits; fin.
   - destruct (fill_refines f st s Hwf HI) as [Hr HI'].
     destruct (fill_buf st) as [st' r]. destruct (f_fill (chunks f) s) as [s' fr]. cbn [fst snd] in *.
@@ -737,11 +771,11 @@ Proof.
   - destruct Hok as [[j Hj] Hsk]. unfold denote in Hj.
     destruct (frame_start f 0 0 (vcomp v)) as [[s0 l]|] eqn:Hfs; [|discriminate].
     destruct (N.leb_spec (vuncomp v) l) as [Hu|]; [|discriminate].
-    destruct (seek_refines f st s v s0 l Hwf HI Hfs Hu Hsk) as [Hr HI'].
-    destruct (seek f st v) as [st' r]. cbn [fst snd] in *.
+    destruct (seek_refines fx f st s v s0 l Hwf HI Hfs Hu Hsk) as [Hr HI'].
+    destruct (seek fx f st v) as [st' r]. cbn [fst snd] in *.
     exists (f_seek (chunks f) s0 (vuncomp v)), (FPos (Ok v)). splits; fin.
-  - destruct (seeku_refines f st s p Hwf Hmax HI Hok) as [Hr HI'].
-    destruct (seek_by_uncompressed_position f (gzi_of f) st p) as [st' r]. cbn [fst snd] in *.
+  - destruct (seeku_refines fx f st s p Hwf Hmax HI Hok) as [Hr HI'].
+    destruct (seek_by_uncompressed_position fx f (gzi_of f) st p) as [st' r]. cbn [fst snd] in *.
     destruct Hok as [Hp _]. destruct (N.leb_spec p (total_dlen f)); [|lia].
     exists (f_seek_flat (chunks f) p), (FPos (Ok p)). splits; fin.
 Qed.
@@ -762,36 +796,36 @@ Fixpoint frun (f : file) (s : fstate) (ops : list op) : option (list (fout * N))
   end.
 
 (* every op of the history is outside the two known classes and every seek is valid *)
-Fixpoint ops_ok (f : file) (idx : gzi_index) (st : state) (ops : list op) : Prop :=
+Fixpoint ops_ok (fx : bool) (f : file) (idx : gzi_index) (st : state) (ops : list op) : Prop :=
   match ops with
   | [] => True
-  | o :: r => op_ok f st o /\ ops_ok f idx (fst (step f idx st o)) r
+  | o :: r => op_ok fx f st o /\ ops_ok fx f idx (fst (step fx f idx st o)) r
   end.
 
 Definition agrees (f : file) (x : out * res N) (y : fout * N) : Prop :=
   out_eq (fst x) (fst y) /\ exists v, snd x = Ok v /\ denote f v = Some (snd y).
 
-Lemma run_refines : forall f, wf f -> total_csize f <= MAX_COMPRESSED_POSITION ->
-  forall ops st s, Inv f st s -> ops_ok f (gzi_of f) st ops ->
-  exists fl, frun f s ops = Some fl /\ Forall2 (agrees f) (run f (gzi_of f) st ops) fl.
+Lemma run_refines : forall fx f, wf f -> total_csize f <= MAX_COMPRESSED_POSITION ->
+  forall ops st s, Inv f st s -> ops_ok fx f (gzi_of f) st ops ->
+  exists fl, frun f s ops = Some fl /\ Forall2 (agrees f) (run fx f (gzi_of f) st ops) fl.
 Proof.
-  intros f Hwf Hmax. induction ops as [|o r IH]; intros st s HI Hok.
+  intros fx f Hwf Hmax. induction ops as [|o r IH]; intros st s HI Hok.
   - exists []. split; [reflexivity | constructor].
   - destruct Hok as [Ho Hr].
-    destruct (step_refines f st s o Hwf Hmax HI Ho) as (s' & fo & Hfs & Heq & HI').
+    destruct (step_refines fx f st s o Hwf Hmax HI Ho) as (s' & fo & Hfs & Heq & HI').
     cbn [run frun]. rewrite Hfs.
-    destruct (step f (gzi_of f) st o) as [st' x] eqn:Es. cbn [fst snd] in *.
+    destruct (step fx f (gzi_of f) st o) as [st' x] eqn:Es. cbn [fst snd] in *.
     destruct (IH st' s' HI' Hr) as (fl & Hfl & Hall). rewrite Hfl.
     exists ((fo, off s') :: fl). split; [reflexivity|]. constructor; [|exact Hall].
     split; [exact Heq|]. cbn [fst snd]. apply vpos_denote; assumption.
 Qed.
 
-Theorem reader_refines_flat : forall f ops, wf f -> total_csize f <= MAX_COMPRESSED_POSITION ->
-  ops_ok f (gzi_of f) (init f) ops ->
+Theorem reader_refines_flat : forall fx f ops, wf f -> total_csize f <= MAX_COMPRESSED_POSITION ->
+  ops_ok fx f (gzi_of f) (init f) ops ->
   exists fl, frun f (mkF 0 0) ops = Some fl /\
-             Forall2 (agrees f) (run f (gzi_of f) (init f) ops) fl.
+             Forall2 (agrees f) (run fx f (gzi_of f) (init f) ops) fl.
 Proof.
-  intros f ops Hwf Hmax Hok. apply (run_refines f Hwf Hmax ops (init f) (mkF 0 0)); [|exact Hok].
+  intros fx f ops Hwf Hmax Hok. apply (run_refines fx f Hwf Hmax ops (init f) (mkF 0 0)); [|exact Hok].
   apply inv_init. exact Hwf.
 Qed.
 
@@ -865,36 +899,42 @@ Proof.
     eapply fstep_mono; [|exact E]. destruct (is_seek o); [discriminate | reflexivity].
 Qed.
 
-(* ---- witnesses of the two known classes -------------------------------------------------- *)
+(* ---- the repaired reader: no exclusions --------------------------------------------------- *)
 
-Definition wit_file : file := [mkFrame 33 [104; 101; 108; 108; 111]; mkFrame 28 []].
-Definition wit_noeof : file := [mkFrame 33 [104; 101; 108; 108; 111]].
+(* every seek of the history names a byte boundary (resp. an offset the index can express) *)
+Definition ops_valid (f : file) (ops : list op) : Prop :=
+  Forall (fun o => match o with
+                   | Seek v => exists j, denote f v = Some j
+                   | SeekU p => seeku_ok f p
+                   | _ => True end) ops.
 
-(* seek-eof-stale-block: read "hello", seek to (61,0) = end of file, read again -> "hello" again *)
-Lemma seek_eof_stale_witness :
-  run wit_file (gzi_of wit_file) (init wit_file) [Read 5; Seek (pack 61 0); Read 5]
-  = [ (OBytes (Ok [104; 101; 108; 108; 111]), Ok (pack 33 0));
-      (OPos (Ok (pack 61 0)), Ok (pack 0 0));
-      (OBytes (Ok [104; 101; 108; 108; 111]), Ok (pack 33 0)) ].
-Proof. vm_compute. reflexivity. Qed.
+Lemma ops_valid_ok : forall f ops st, ops_valid f ops -> ops_ok true f (gzi_of f) st ops.
+Proof.
+  intros f. induction ops as [|o r IH]; intros st Hv; [exact I|].
+  inversion Hv as [|? ? Ho Hr]; subst. cbn [ops_ok]. split; [|apply IH; exact Hr].
+  destruct o as [n|n|n| |n|v|p]; cbn [op_ok]; try exact I.
+  - intros (H & _). discriminate.
+  - left. reflexivity.
+  - left. reflexivity.
+  - split; [exact Ho|]. intros H. discriminate.
+  - exact Ho.
+Qed.
 
-(* direct-read-at-eof-stale-len: without EOF marker, a 64 KiB read at the end reports 5 bytes *)
-Lemma direct_read_stale_witness :
-  run wit_noeof (gzi_of wit_noeof) (init wit_noeof) [Read 65536; Read 65536]
-  = [ (OBytes (Ok [104; 101; 108; 108; 111]), Ok (pack 33 0));
-      (OBytes (Ok [170; 170; 170; 170; 170]), Ok (pack 33 0)) ].
-Proof. vm_compute. reflexivity. Qed.
-
-(* ---- corollaries used by props/C02.v ------------------------------------------------------ *)
+Theorem reader_refines_flat_repaired : forall f ops,
+  wf f -> total_csize f <= MAX_COMPRESSED_POSITION -> ops_valid f ops ->
+  exists fl, frun f (mkF 0 0) ops = Some fl /\
+             Forall2 (agrees f) (run true f (gzi_of f) (init f) ops) fl.
+Proof.
+  intros f ops Hwf Hmax Hv. apply reader_refines_flat; try assumption. apply ops_valid_ok. exact Hv.
+Qed.
 
 Theorem tell_monotone_flat : forall f ops,
-  wf f -> total_csize f <= MAX_COMPRESSED_POSITION ->
-  ops_ok f (gzi_of f) (init f) ops ->
+  wf f -> total_csize f <= MAX_COMPRESSED_POSITION -> ops_valid f ops ->
   forallb (fun o => negb (is_seek o)) ops = true ->
-  exists fl, Forall2 (agrees f) (run f (gzi_of f) (init f) ops) fl /\ nondecr 0 (map snd fl).
+  exists fl, Forall2 (agrees f) (run true f (gzi_of f) (init f) ops) fl /\ nondecr 0 (map snd fl).
 Proof.
   intros f ops Hwf Hmax Hok Hns.
-  destruct (reader_refines_flat f ops Hwf Hmax Hok) as (fl & Hfl & Hall).
+  destruct (reader_refines_flat_repaired f ops Hwf Hmax Hok) as (fl & Hfl & Hall).
   exists fl. split; [exact Hall|]. apply (frun_mono f ops (mkF 0 0) fl Hns Hfl).
 Qed.
 
@@ -911,19 +951,46 @@ Proof.
   exists k. split; [exact Hk | exact Hr].
 Qed.
 
-Definition full_statement : Prop := forall f ops,
-  wf f -> total_csize f <= MAX_COMPRESSED_POSITION ->
-  Forall (fun o => match o with
-                   | Seek v => exists j, denote f v = Some j
-                   | SeekU p => seeku_ok f p
-                   | _ => True end) ops ->
+(* ---- the reader as it was before the repair (fx = false): witnesses of the two classes ---- *)
+
+Definition wit_file : file := [mkFrame 33 [104; 101; 108; 108; 111]; mkFrame 28 []].
+Definition wit_noeof : file := [mkFrame 33 [104; 101; 108; 108; 111]].
+
+(* seek-eof-stale-block: read "hello", seek to (61,0) = end of file, read again -> "hello" again *)
+Lemma seek_eof_stale_witness :
+  run false wit_file (gzi_of wit_file) (init wit_file) [Read 5; Seek (pack 61 0); Read 5]
+  = [ (OBytes (Ok [104; 101; 108; 108; 111]), Ok (pack 33 0));
+      (OPos (Ok (pack 61 0)), Ok (pack 0 0));
+      (OBytes (Ok [104; 101; 108; 108; 111]), Ok (pack 33 0)) ].
+Proof. vm_compute. reflexivity. Qed.
+
+(* direct-read-at-eof-stale-len: without EOF marker, a 64 KiB read at the end reports 5 bytes *)
+Lemma direct_read_stale_witness :
+  run false wit_noeof (gzi_of wit_noeof) (init wit_noeof) [Read 65536; Read 65536]
+  = [ (OBytes (Ok [104; 101; 108; 108; 111]), Ok (pack 33 0));
+      (OBytes (Ok [170; 170; 170; 170; 170]), Ok (pack 33 0)) ].
+Proof. vm_compute. reflexivity. Qed.
+
+(* the same histories on the repaired reader *)
+Lemma repaired_witnesses :
+  run true wit_file (gzi_of wit_file) (init wit_file) [Read 5; Seek (pack 61 0); Read 5]
+  = [ (OBytes (Ok [104; 101; 108; 108; 111]), Ok (pack 33 0));
+      (OPos (Ok (pack 61 0)), Ok (pack 61 0));
+      (OBytes (Ok []), Ok (pack 61 0)) ] /\
+  run true wit_noeof (gzi_of wit_noeof) (init wit_noeof) [Read 65536; Read 65536]
+  = [ (OBytes (Ok [104; 101; 108; 108; 111]), Ok (pack 33 0));
+      (OBytes (Ok []), Ok (pack 33 0)) ].
+Proof. split; vm_compute; reflexivity. Qed.
+
+Definition old_full_statement : Prop := forall f ops,
+  wf f -> total_csize f <= MAX_COMPRESSED_POSITION -> ops_valid f ops ->
   exists fl, frun f (mkF 0 0) ops = Some fl /\
-             Forall2 (agrees f) (run f (gzi_of f) (init f) ops) fl.
+             Forall2 (agrees f) (run false f (gzi_of f) (init f) ops) fl.
 
 Lemma wf_wit : wf wit_file.
 Proof. repeat constructor; vm_compute; congruence. Qed.
 
-Theorem full_statement_refuted : ~ full_statement.
+Theorem old_full_statement_refuted : ~ old_full_statement.
 Proof.
   intros H.
   destruct (H wit_file [Read 5; Seek (pack 61 0); Read 5] wf_wit) as (fl & Hfl & Hall).
@@ -935,18 +1002,14 @@ Proof.
     vm_compute in Hden. discriminate.
 Qed.
 
-Lemma example_ok :
+Lemma example_valid :
   wf wit_file /\ total_csize wit_file <= MAX_COMPRESSED_POSITION /\
-  ops_ok wit_file (gzi_of wit_file) (init wit_file)
-         [Read 3; Seek (pack 0 5); FillBuf; Seek (pack 33 0); SeekU 2; ReadExact 3; Read 70000].
+  ops_valid wit_file
+         [Read 3; Seek (pack 0 5); FillBuf; Seek (pack 61 0); Read 70000; SeekU 2; ReadExact 3; Read 70000].
 Proof.
   split; [exact wf_wit|]. split; [vm_compute; congruence|].
-  cbn [ops_ok op_ok]. unfold seeku_ok. splits; try exact I;
-    try (intros (H1 & H2 & H3 & H4); vm_compute in H3; discriminate);
+  unfold ops_valid, seeku_ok. repeat constructor;
     try (exists 5; vm_compute; reflexivity);
-    try (left; vm_compute; reflexivity);
-    try (intros H; vm_compute in H; discriminate);
     try (vm_compute; intros H; discriminate H);
-    try (intros (H1 & H2 & H3 & H4); vm_compute in H1; congruence);
-    try (intros (H1 & H2 & H3 & H4); apply H4; vm_compute; reflexivity).
+    try (intros H; vm_compute in H; discriminate).
 Qed.
